@@ -124,8 +124,11 @@ def isAbsText (t : Str) : Bool := t.head? = some '/'
 inductive RP where
   | done (path : List Str)
   | loop (newpath : List Str) (rest : List Str)      -- `return join(newpath, rest), False`
+  | nul                                              -- `os.lstat` raised ValueError (embedded null byte)
   | fuel
   deriving Repr, DecidableEq
+
+def hasNul (s : Str) : Bool := s.contains (Char.ofNat 0)
 
 /-- `_joinrealpath(path, rest, strict=False, seen)`.  `vis` is the set of links whose resolution is in
 progress (`seen[x] is None`); a resolved link is simply resolved again (the cache of the original only
@@ -136,6 +139,7 @@ def rpWalk (fs : Fs) : Nat → List Str → List Str → List (List Str) → RP
   | f + 1, path, name :: rest, vis =>
     if name = [] ∨ name = dot then rpWalk fs f path rest vis
     else if name = dotdot then rpWalk fs f path.dropLast rest vis
+    else if hasNul name then .nul
     else
       match lstatAt fs path name with
       | .node (.link t) =>
@@ -145,6 +149,7 @@ def rpWalk (fs : Fs) : Nat → List Str → List Str → List (List Str) → RP
           match rpWalk fs f (if isAbsText t then [] else path) (splitSlash t) (np :: vis) with
           | .done p' => rpWalk fs f p' rest vis
           | .loop lp lrest => .loop lp (lrest ++ rest)
+          | .nul => .nul
           | .fuel => .fuel
       | _ => rpWalk fs f (path ++ [name]) rest vis
 
@@ -200,47 +205,51 @@ inductive PErr where
 /-- `Path.exists()`: ENOENT/ENOTDIR/ELOOP are swallowed, every other OSError propagates (and is turned
 into "Path resolution failed" by the enclosing `except Exception`). -/
 def pyExists (fs : Fs) (fuel : Nat) (parts : List Str) : Except PErr Bool :=
-  match kstat fs fuel parts with
+  if parts.any hasNul then .ok false             -- `except ValueError: return False`
+  else match kstat fs fuel parts with
   | .ok _ => .ok true
   | .enoent => .ok false
   | .eloop => .ok false
   | .toolong => .error .resolve
   | .fuel => .error .fuel
 
-/-- `Path.is_symlink()`: `lstat` follows every component but the last. -/
-def pyIsSymlink (fs : Fs) (fuel : Nat) (parts : List Str) : Bool :=
+/-- `Path.is_symlink()`: `lstat` follows every component but the last.  ENOENT/ENOTDIR/ELOOP and ValueError give
+`False`; any other OSError (ENAMETOOLONG) propagates. -/
+def pyIsSymlink (fs : Fs) (fuel : Nat) (parts : List Str) : Except PErr Bool :=
   match parts.getLast? with
-  | none => false
+  | none => .ok false
   | some last =>
-    if last = dotdot ∨ last = dot ∨ last = [] then false
+    if parts.any hasNul then .ok false
+    else if last = dotdot ∨ last = dot ∨ last = [] then
+      match kstat fs fuel parts with
+      | .toolong => .error .resolve
+      | .fuel => .error .fuel
+      | _ => .ok false
     else match kstat fs fuel parts.dropLast with
       | .ok d => match fs.get d with
-        | some .dir => match fs.get (d ++ [last]) with
-          | some (.link _) => true
-          | _ => false
-        | _ => false
-      | _ => false
+        | some .dir =>
+          if utf8Len last > nameMax then .error .resolve
+          else match fs.get (d ++ [last]) with
+            | some (.link _) => .ok true
+            | _ => .ok false
+        | _ => .ok false
+      | .toolong => .error .resolve
+      | .fuel => .error .fuel
+      | _ => .ok false
 
-def hasNul (s : Str) : Bool := s.contains (Char.ofNat 0)
-
-/-- `Path(parts).resolve(strict=False)` for an absolute path: realpath, normpath, then the `p.stat()` probe
-that turns ELOOP into `RuntimeError`. -/
-def pyResolve (fs : Fs) (fuel : Nat) (parts : List Str) : Except PErr (List Str) :=
-  if parts.any hasNul then .error .resolve          -- ValueError: embedded null byte
-  else
-    match rpWalk fs fuel [] parts [] with
+def statProbe (fs : Fs) (fuel : Nat) (p : List Str) : Except PErr (List Str) :=
+  if p.any hasNul then .error .resolve              -- ValueError from `p.stat()` is not an OSError
+  else match kstat fs fuel p with
+    | .eloop => .error .resolve                     -- RuntimeError("Symlink loop from ...")
     | .fuel => .error .fuel
-    | .done p =>
-      match kstat fs fuel p with
-      | .eloop => .error .resolve
-      | .fuel => .error .fuel
-      | _ => .ok p
-    | .loop np rest =>
-      let p := normLex (np ++ rest)
-      match kstat fs fuel p with
-      | .eloop => .error .resolve
-      | .fuel => .error .fuel
-      | _ => .ok p
+    | _ => .ok p
+
+def pyResolve (fs : Fs) (fuel : Nat) (parts : List Str) : Except PErr (List Str) :=
+  match rpWalk fs fuel [] parts [] with
+  | .fuel => .error .fuel
+  | .nul => .error .resolve                          -- ValueError: embedded null byte
+  | .done p => statProbe fs fuel p
+  | .loop np rest => statProbe fs fuel (normLex (np ++ rest))
 
 /-- system-symlink exemption: `symlink_depth <= depthBound and str(current.resolve()).startswith(prefix)`,
 with `prefix = "/" ++ first ++ "/"`. -/
@@ -251,34 +260,49 @@ structure Exempt where
 def exemptOk (ex : Exempt) (depth : Nat) (resolvedTarget : List Str) : Bool :=
   decide (depth ≤ ex.depthBound) && (resolvedTarget.head? == some ex.first) && decide (resolvedTarget.length ≥ 2)
 
-/-- the component walk: `for part in absolute.parts[1:]: current = current / part; if current.exists() and
-current.is_symlink(): …` -/
-def walkPrefixes (fs : Fs) (fuel : Nat) (ex : Exempt) : List Str → List Str → Except PErr Unit
+/-- The two shapes of the symlink test that the translator recognises in the source (Gen/Paths.lean):
+`useExists`: the walk tests `current.exists() and current.is_symlink()` (true, the code today) or just
+`current.is_symlink()` (false); `guarded`: the walk runs only `if absolute != resolved` (true, today) or always. -/
+structure WalkCfg where
+  useExists : Bool
+  guarded : Bool
+  deriving Repr, DecidableEq
+
+/-- `X.exists() and X.is_symlink()` / `X.is_symlink()` -/
+def linkTest (fs : Fs) (fuel : Nat) (useExists : Bool) (cur : List Str) : Except PErr Bool :=
+  if useExists then
+    match pyExists fs fuel cur with
+    | .error e => .error e
+    | .ok false => .ok false
+    | .ok true => pyIsSymlink fs fuel cur
+  else pyIsSymlink fs fuel cur
+
+/-- the component walk: `for part in absolute.parts[1:]: current = current / part; if <linkTest current>: …` -/
+def walkPrefixes (fs : Fs) (fuel : Nat) (cfg : WalkCfg) (ex : Exempt) : List Str → List Str → Except PErr Unit
   | _, [] => .ok ()
   | pre, part :: rest =>
     let cur := pre ++ [part]
-    match pyExists fs fuel cur with
+    match linkTest fs fuel cfg.useExists cur with
     | .error e => .error e
-    | .ok e =>
-      if e && pyIsSymlink fs fuel cur then
-        match pyResolve fs fuel cur with
-        | .error er => .error er
-        | .ok rt =>
-          if exemptOk ex (cur.length + 1) rt then walkPrefixes fs fuel ex cur rest
-          else .error .symlink
-      else walkPrefixes fs fuel ex cur rest
+    | .ok false => walkPrefixes fs fuel cfg ex cur rest
+    | .ok true =>
+      match pyResolve fs fuel cur with
+      | .error er => .error er
+      | .ok rt =>
+        if exemptOk ex (cur.length + 1) rt then walkPrefixes fs fuel cfg ex cur rest
+        else .error .symlink
 
 /-- `path.absolute()`: (root kind, components). -/
 def pyAbsolute (cwd : List Str) (p : PPath) : Nat × List Str :=
   if p.root = 0 then (1, cwd ++ p.tail) else (p.root, p.tail)
 
 /-- the symlink stage (the `try:` block of the three validators) -/
-def symlinkStage (fs : Fs) (fuel : Nat) (ex : Exempt) (cwd : List Str) (s : Str) : Except PErr Unit :=
+def symlinkStage (fs : Fs) (fuel : Nat) (cfg : WalkCfg) (ex : Exempt) (cwd : List Str) (s : Str) : Except PErr Unit :=
   let a := pyAbsolute cwd (parsePath s)
   match pyResolve fs fuel a.2 with
   | .error e => .error e
   | .ok resolved =>
-    if a.1 ≠ 1 ∨ a.2 ≠ resolved then walkPrefixes fs fuel ex [] a.2 else .ok ()
+    if cfg.guarded = false ∨ a.1 ≠ 1 ∨ a.2 ≠ resolved then walkPrefixes fs fuel cfg ex [] a.2 else .ok ()
 
 def dotdotStage (s : Str) : Except PErr Unit :=
   if (parsePath s).tail.contains dotdot then .error .dotdot else .ok ()
@@ -286,30 +310,31 @@ def dotdotStage (s : Str) : Except PErr Unit :=
 def extStage (allowed : List Str) (s : Str) : Except PErr Unit :=
   if extAllowed allowed (pathName (parsePath s)) then .ok () else .error .ext
 
-/-- `WriteTool._validate_path` and `file_ops.validate_octave_path`: '..' first, then symlinks, then extension. -/
-def validatePathA (fs : Fs) (fuel : Nat) (ex : Exempt) (allowed : List Str) (cwd : List Str) (s : Str) : Except PErr Unit :=
-  match dotdotStage s with
-  | .error e => .error e
-  | .ok () =>
-    match symlinkStage fs fuel ex cwd s with
-    | .error e => .error e
-    | .ok () => extStage allowed s
+inductive Stage where
+  | dotdot | symlink | ext
+  deriving Repr, DecidableEq
 
-/-- `ValidateTool._validate_path`: symlinks first, then '..', then extension. -/
-def validatePathB (fs : Fs) (fuel : Nat) (ex : Exempt) (allowed : List Str) (cwd : List Str) (s : Str) : Except PErr Unit :=
-  match symlinkStage fs fuel ex cwd s with
-  | .error e => .error e
-  | .ok () =>
-    match dotdotStage s with
+def runStage (fs : Fs) (fuel : Nat) (cfg : WalkCfg) (ex : Exempt) (allowed : List Str) (cwd : List Str) (s : Str) : Stage → Except PErr Unit
+  | .dotdot => dotdotStage s
+  | .symlink => symlinkStage fs fuel cfg ex cwd s
+  | .ext => extStage allowed s
+
+/-- the validators run their stages in the order found in the source (Gen.stageOrder): today
+`WriteTool._validate_path` and `file_ops.validate_octave_path` check '..', symlinks, extension;
+`ValidateTool._validate_path` checks symlinks, '..', extension.  The first failing stage decides. -/
+def validatePath (fs : Fs) (fuel : Nat) (cfg : WalkCfg) (ex : Exempt) (allowed : List Str) (cwd : List Str) (s : Str) : List Stage → Except PErr Unit
+  | [] => .ok ()
+  | st :: rest =>
+    match runStage fs fuel cfg ex allowed cwd s st with
     | .error e => .error e
-    | .ok () => extStage allowed s
+    | .ok () => validatePath fs fuel cfg ex allowed cwd s rest
+
+def orderA : List Stage := [.dotdot, .symlink, .ext]
+def orderB : List Stage := [.symlink, .dotdot, .ext]
 
 /-- The re-check just before writing: `if path_obj.exists() and path_obj.is_symlink(): return error`. -/
-def recheckRefuses (fs : Fs) (fuel : Nat) (cwd : List Str) (s : Str) : Except PErr Bool :=
-  let a := pyAbsolute cwd (parsePath s)
-  match pyExists fs fuel a.2 with
-  | .error e => .error e
-  | .ok e => .ok (e && pyIsSymlink fs fuel a.2)
+def recheckRefuses (fs : Fs) (fuel : Nat) (useExists : Bool) (cwd : List Str) (s : Str) : Except PErr Bool :=
+  linkTest fs fuel useExists (pyAbsolute cwd (parsePath s)).2
 
 /-! ## Schema names -/
 
@@ -345,7 +370,8 @@ def schemaProbe (fs : Fs) (fuel : Nat) (dirs : List (List Str)) (n : Str) : List
       | q :: qs, acc =>
         match pyExists fs fuel q with
         | .ok true => ((q :: acc).reverse, some q)
-        | _ => go qs (q :: acc)
+        | .ok false => go qs (q :: acc)
+        | .error _ => ((q :: acc).reverse, none)        -- OSError (ENAMETOOLONG) escapes: nothing is opened
     go cands []
   else ([], none)
 
@@ -411,14 +437,26 @@ inductive UErr where
   deriving Repr, DecidableEq
 
 def resolveU (fs : Fs) (fuel : Nat) (parts : List Str) : Except UErr (List Str) :=
-  if parts.any hasNul then .error .resolveFailed            -- ValueError is caught
-  else match pyResolve fs fuel parts with
-    | .ok r => .ok r
-    | .error .fuel => .error .fuel
-    | .error _ => .error .loopRaise                          -- RuntimeError is not caught by the function
+  match rpWalk fs fuel [] parts [] with
+  | .fuel => .error .fuel
+  | .nul => .error .resolveFailed                            -- ValueError is caught
+  | .done p =>
+    if p.any hasNul then .error .resolveFailed
+    else match kstat fs fuel p with
+      | .eloop => .error .loopRaise                          -- RuntimeError is not caught by the function
+      | .fuel => .error .fuel
+      | _ => .ok p
+  | .loop np rest =>
+    let p := normLex (np ++ rest)
+    if p.any hasNul then .error .resolveFailed
+    else match kstat fs fuel p with
+      | .eloop => .error .loopRaise
+      | .fuel => .error .fuel
+      | _ => .ok p
 
-/-- `validate_source_uri(u, base)` for an absolute `base` (components). -/
-def validateSourceUri (fs : Fs) (fuel : Nat) (base : List Str) (u : Str) : Except UErr (List Str) :=
+/-- `validate_source_uri(u, base)` for an absolute `base` (components).  `fixpoint`: the function re-resolves
+its result and demands a fixed point (Gen.sourceUriFixpoint; false today). -/
+def validateSourceUri (fs : Fs) (fuel : Nat) (fixpoint : Bool) (base : List Str) (u : Str) : Except UErr (List Str) :=
   match resolveU fs fuel base with
   | .error e => .error (if e = .resolveFailed then .loopRaise else e)
   | .ok b =>
@@ -426,6 +464,20 @@ def validateSourceUri (fs : Fs) (fuel : Nat) (base : List Str) (u : Str) : Excep
     else
       match resolveU fs fuel (b ++ (parsePath u).tail) with
       | .error e => .error e
-      | .ok r => if b.isPrefixOf r then .ok r else .error .outside
+      | .ok r =>
+        if fixpoint then
+          match resolveU fs fuel r with
+          | .error e => .error e
+          | .ok r' => if r' ≠ r then .error .resolveFailed else if b.isPrefixOf r then .ok r else .error .outside
+        else if b.isPrefixOf r then .ok r else .error .outside
+
+/-- known-finding class F60: resolving `base / u` runs into a symlink cycle (`realpath(strict=False)` then
+returns a partially resolved path). -/
+def uriMeetsLoop (fs : Fs) (fuel : Nat) (base : List Str) (u : Str) : Bool :=
+  match resolveU fs fuel base with
+  | .ok b => match rpWalk fs fuel [] (b ++ (parsePath u).tail) [] with
+    | .loop _ _ => true
+    | _ => false
+  | .error _ => false
 
 end Octave
